@@ -109,6 +109,18 @@ REQUIRE = {  # about 1/20 of what one quick run observes on an idle machine (the
     "directed:grid-focus-on-empty-cell": 4,
     "directed:overlay-top-replaced": 4,
     "directed:grid-selectable-after-edit": 4,
+    "iter_edit:gen:setslice": 10,
+    "iter_edit:iter:setslice": 8,
+    "iter_edit:map:setslice": 8,
+    "iter_edit:reversed:setslice": 8,
+    "iter_edit:gen:assign": 8,
+    "iter_edit:gen:extend": 8,
+    "iter_edit:gen:iadd": 6,
+    "setslice_vs_focus:before-focus:one-shot:grow": 4,
+    "setslice_vs_focus:contains-focus:one-shot:grow": 5,
+    "setslice_vs_focus:after-focus:one-shot:grow": 4,
+    "directed:listbox-emptied-after-set-focus": 6,
+    "directed:slice-assign-from-iterator": 6,
     "kind:pile": 6000,
     "kind:cols": 5000,
     "kind:grid": 4500,
@@ -378,6 +390,24 @@ class IndexObj:
 
 class IntSub(int):
     """a genuine int (subclass)"""
+
+
+ITER_KINDS = ("list", "tuple", "gen", "iter", "map", "reversed")
+
+
+def mkiter(kind, items):
+    """the right-hand side of an edit as a user may write it; all but list/tuple are one-shot and have no len()"""
+    if kind == "tuple":
+        return tuple(items)
+    if kind == "gen":
+        return (x for x in items)
+    if kind == "iter":
+        return iter(items)
+    if kind == "map":
+        return map(lambda x: x, items)
+    if kind == "reversed":
+        return reversed(items[::-1])
+    return list(items)
 
 
 def decode_pos(p):
@@ -796,6 +826,18 @@ class Session:
             self.c("bycatch_crashes")
             self.c(f"bycatch:{sig}")
             self.bycatch.append((sig, f"{type(e).__name__}: {e}"))
+            tbn = [fs.name for fs in traceback.extract_tb(e.__traceback__)]
+            k = max((i for i, nm in enumerate(tbn) if nm == "_set_focus_complete"), default=None)
+            # only when _set_focus_complete itself, or the walker position call it makes (set_focus / get_focus / the
+            # MonitoredFocusList.focus setter), raises - not geometry errors further down (shift_focus, child rendering)
+            if k is not None and all(nm in ("set_focus", "get_focus", "focus") for nm in tbn[k + 1 :]):
+                # the ListBox failed while finishing a focus assignment made earlier (set_focus is deferred until the
+                # next render / keypress / mouse_event): the focus machinery, not geometry
+                emptied = any(n.kind == "list" and not n.ch for n in all_nodes(self.root))
+                self.v(
+                    f"C08|ListBox|deferred-focus-completion-raised|{opclass}|{type(e).__name__}|in:{urwid_frame(e)}|{'a-listbox-is-empty' if emptied else 'no-listbox-empty'}",
+                    f"{opclass} raised {type(e).__name__}: {e} while a ListBox completed a pending set_focus()",
+                )
             raise Crash from e
 
     def cache_diagnosis(self, leaf):
@@ -1322,8 +1364,12 @@ class Session:
                 b.contents = c
 
         if kind == "ins":
-            _, _, idx, spec, how = op
+            _, _, idx, spec, how = op[:5]
+            it = op[5] if len(op) > 5 else "list"
             nodes, its = items([spec])
+            if how in ("iadd", "extend") and it != "list":
+                self.c(f"iter_edit:{it}:{how}")
+                its = mkiter(it, its)
             if how == "insert":
                 mg(how, rl.insert, idx, its[0])
                 n.ch.insert(idx, nodes[0])
@@ -1372,15 +1418,24 @@ class Session:
             n.ch[idx] = nodes[0]
             return done("setitem")
         if kind == "slice":
-            _, _, a, b2, specs, how = op
+            _, _, a, b2, specs, how = op[:6]
+            it = op[6] if len(op) > 6 else "list"
             if how == "del":
                 mg("delslice", rl.__delitem__, slice(a, b2))
                 del n.ch[a:b2]
                 return done("delslice")
             nodes, its = items(specs)
-            mg("setslice", rl.__setitem__, slice(a, b2), its)
+            label = "setslice" if it == "list" else f"setslice<{it}>"
+            try:
+                fp = b.focus_position
+                rel = "before-focus" if b2 <= fp and a < len(n.ch) else ("after-focus" if a > fp else "contains-focus")
+            except Exception:  # noqa: BLE001
+                rel = "empty"
+            self.c(f"iter_edit:{it}:setslice")
+            self.c(f"setslice_vs_focus:{rel}:{'one-shot' if it not in ('list', 'tuple') else 'sized'}:{'grow' if len(its) > len(n.ch[a:b2]) else 'same-or-shrink'}")
+            mg(label, rl.__setitem__, slice(a, b2), mkiter(it, its))
             n.ch[a:b2] = nodes
-            return done("setslice")
+            return done(label)
         if kind == "clear":
             how = op[2]
             if how == "clear":
@@ -1396,12 +1451,15 @@ class Session:
         if kind == "assign":
             nodes, its = items(op[2])
             how = op[3] if len(op) > 3 else "setter"
+            it = op[4] if len(op) > 4 else "list"
+            sfx = "" if it == "list" else f"<{it}>"
+            self.c(f"iter_edit:{it}:assign")
             if n.kind == "list" or how == "slice":
-                mg("[:]=items", rl.__setitem__, slice(None), its)
+                mg("[:]=items" + sfx, rl.__setitem__, slice(None), mkiter(it, its))
             else:
-                mg("contents=items", setattr, b, "contents", its)
+                mg("contents=items" + sfx, setattr, b, "contents", mkiter(it, its))
             n.ch = nodes
-            return done("[:]=items" if (n.kind == "list" or how == "slice") else "contents=items")
+            return done(("[:]=items" if (n.kind == "list" or how == "slice") else "contents=items") + sfx)
         if kind == "reverse":
             mg("reverse()", rl.reverse)
             n.ch.reverse()
@@ -1812,14 +1870,27 @@ def gen_op(rng, gen, s: Session):
             if z < 0.66:
                 return ["reverse", n.cid]
             if z < 0.82 and can_grow:
-                return ["ins", n.cid, rng.choice([0, L, -1]), gen_new_child(gen, n), rng.choice(["append", "extend", "iadd", "iadd_attr", "insert"])]
+                return ["ins", n.cid, rng.choice([0, L, -1]), gen_new_child(gen, n), rng.choice(["append", "extend", "iadd", "iadd_attr", "insert"]), rng.choice(["list", "list", "tuple", "gen", "gen", "iter", "map", "reversed"])]
             if z < 0.92 and can_grow:
-                return ["assign", n.cid, [gen_new_child(gen, n) for _ in range(rng.randint(1, 3))], rng.choice(["slice", "setter"])]
+                return ["assign", n.cid, [gen_new_child(gen, n) for _ in range(rng.randint(1, 3))], rng.choice(["slice", "setter"]), rng.choice(["list", "list", "tuple", "gen", "gen", "iter", "map", "reversed"])]
+            if z < 0.97 and can_grow and isinstance(fp, int):
+                # slice assignment placed relative to the focus: before it / containing it / after it, growing the list
+                where = rng.choice(["before", "contains", "after"])
+                if where == "before" and fp > 0:
+                    a = rng.randrange(0, fp)
+                    b = rng.randint(a, fp)
+                elif where == "after" and fp < L - 1:
+                    a = rng.randint(fp + 1, L)
+                    b = rng.randint(a, L)
+                else:
+                    a = rng.randint(0, fp)
+                    b = rng.randint(fp + 1, L)
+                return ["slice", n.cid, a, b, [gen_new_child(gen, n) for _ in range(rng.randint(1, 3))], "set", rng.choice(["list", "list", "tuple", "gen", "gen", "iter", "map", "reversed"])]
             del f
             return ["slice", n.cid, rng.choice([0, L - 1]), L, [], "del"]
         if (y < 0.36 or L == 0) and can_grow:
             how = rng.choice(["insert", "insert", "append", "extend", "iadd", "iadd_attr"])
-            return ["ins", n.cid, rng.randint(-1, L + 1), gen_new_child(gen, n), how]
+            return ["ins", n.cid, rng.randint(-1, L + 1), gen_new_child(gen, n), how, rng.choice(["list", "list", "tuple", "gen", "gen", "iter", "map", "reversed"])]
         if y < 0.60 and L:
             return ["del", n.cid, rng.randrange(-L, L), rng.choice(["del", "del", "pop", "pop()", "remove"])]
         if y < 0.68 and L and can_grow:
@@ -1831,10 +1902,10 @@ def gen_op(rng, gen, s: Session):
             b = rng.randint(a, L)
             if rng.random() < 0.5 or not can_grow:
                 return ["slice", n.cid, a, b, [], "del"]
-            return ["slice", n.cid, a, b, [gen_new_child(gen, n) for _ in range(rng.randint(0, 2))], "set"]
+            return ["slice", n.cid, a, b, [gen_new_child(gen, n) for _ in range(rng.randint(0, 3))], "set", rng.choice(["list", "list", "tuple", "gen", "gen", "iter", "map", "reversed"])]
         if y < 0.93 or not can_grow:
             return ["clear", n.cid, rng.choice(["clear", "delall", "assign", "prop"])]
-        return ["assign", n.cid, [gen_new_child(gen, n) for _ in range(rng.randint(1, 3))], rng.choice(["slice", "setter"])]
+        return ["assign", n.cid, [gen_new_child(gen, n) for _ in range(rng.randint(1, 3))], rng.choice(["slice", "setter"]), rng.choice(["list", "list", "tuple", "gen", "gen", "iter", "map", "reversed"])]
     if n.kind == "frame":
         part = rng.choice(["header", "footer", "body", "header", "footer"])
         if part != "body" and (rng.random() < 0.45 or not can_grow):
